@@ -41,7 +41,7 @@ func inside(snap string) string {
 
 func corrBpfs(seed uint64, tier string, replay []string) *lib.Result {
 	res := &lib.Result{Property: "C10",
-		Rule: "random histories through BasePathFS(MemFS, /qb) in lockstep with a standalone MemFS holding the same content at its root: operands from the standalone tree plus escape attempts ('/..', '../..', relative paths before and after Chdir, the base's own prefix, unclean forms); after every call: outcomes equal, the virtual tree equals the standalone tree, everything OUTSIDE /qb in the base is unchanged, no error or returned path reveals /qb; operations on the root itself included (for a failing Rename that involves the root only the failure is compared); Sub with escaping / relative directories followed by calls through the returned view; a case is one call; distinct non-trivial = distinct (call kind, outcome, path form)"}
+		Rule: "random histories through BasePathFS(MemFS, B) with B = /qb given under the spellings /qb, /qb/, //qb, /qb/., /other/../qb, /qb// in turn, in lockstep with a standalone MemFS holding the same content at its root: operands from the standalone tree plus escape attempts ('/..', '../..', relative paths before and after Chdir, the base's own prefix, unclean forms); after every call: outcomes equal, the virtual tree equals the standalone tree, everything OUTSIDE /qb in the base is unchanged, no error or returned path reveals /qb; operations on the root itself included (for a failing Rename that involves the root only the failure is compared); Sub with escaping / relative directories followed by calls through the returned view; then the bounded-exhaustive scenarios namespace, file-admin and dir-handle of small.go (every sequence of ≤ 2 / 2 / 4 calls; thorough one more) in the same lockstep; a case is one call; distinct non-trivial = distinct (call kind, outcome, path form)"}
 	st := lib.NewStats()
 	nh, nl := 150, 40
 	if tier == "thorough" {
@@ -49,7 +49,20 @@ func corrBpfs(seed uint64, tier string, replay []string) *lib.Result {
 	}
 	r := lib.NewRng(seed*6151 + 3)
 	seen := map[string]bool{}
-	for k := 0; k < nh; k++ {
+	// after the random histories: the bounded-exhaustive scenarios of small.go (one level shallower), in the same lockstep
+	var scripts []lib.History
+	if replay == nil {
+		for _, scn := range []string{"namespace", "file-admin", "dir-handle"} {
+			sh, _ := smallHistoriesDepth(tier, scn, -1)
+			scripts = append(scripts, sh...)
+		}
+	}
+	for k := 0; k < nh+len(scripts); k++ {
+		var script lib.History
+		if k >= nh {
+			script = scripts[k-nh][1:] // without "fs new"
+			script = script[:len(script)-1]
+		}
 		_ = avfs.SetUMask(0)
 		base := memfs.New()
 		_ = base.WriteFile("/secret", []byte("TOP"), 0o600)
@@ -61,7 +74,9 @@ func corrBpfs(seed uint64, tier string, replay []string) *lib.Result {
 		_ = avfs.SetUMask(0o022)
 		_ = base.SetUMask(0o022)
 		twin := memfs.New()
-		w := newFsOn(basepathfs.New(base, "/qb"))
+		// the base directory is handed over under several spellings of the same path
+		spelling := baseSpellings[k%len(baseSpellings)]
+		w := newFsOn(basepathfs.New(base, spelling))
 		w.leak = "/qb"
 		tw := newFsOn(twin)
 		bs := newFsOn(base)
@@ -71,14 +86,19 @@ func corrBpfs(seed uint64, tier string, replay []string) *lib.Result {
 		var queue []string
 		var hist lib.History
 		out0 := outside(bs.call("fs 0 snap"))
-		for i := 0; i < nl; i++ {
+		for i := 0; i < nl || (script != nil && i < len(script)); i++ {
 			var l string
-			if len(queue) > 0 && replay == nil {
+			if script != nil {
+				if i >= len(script) {
+					break
+				}
+				l = script[i]
+			} else if len(queue) > 0 && replay == nil {
 				l, queue = queue[0], queue[1:]
 			} else {
 				l = g.next()
 			}
-			if replay == nil && len(queue) == 0 && r.Bool(6) {
+			if script == nil && replay == nil && len(queue) == 0 && r.Bool(6) {
 				// Sub with an escaping / relative / ordinary directory, then calls through the view it returns
 				l = "fs 0 sub " + lib.Hex(lib.Pick(r, subDirs))
 				v := w.nextV
@@ -91,7 +111,7 @@ func corrBpfs(seed uint64, tier string, replay []string) *lib.Result {
 					break
 				}
 				l = replay[i]
-			} else if r.Bool(15) {
+			} else if script == nil && r.Bool(15) {
 				// escape attempt with a random path-taking call
 				e := lib.Hex(lib.Pick(r, escapes))
 				l = lib.Pick(r, []string{"fs 0 readfile " + e, "fs 0 stat " + e, "fs 0 readdir " + e, "fs 0 remove " + e, "fs 0 writefile " + e + " 58 420",
@@ -163,7 +183,7 @@ func corrBpfs(seed uint64, tier string, replay []string) *lib.Result {
 				sig := f[2] + "|" + form + "|" + bad[:min(18, len(bad))]
 				if !seen[sig] {
 					seen[sig] = true
-					res.Mismatches = append(res.Mismatches, lib.Mismatch{Kind: "violation", Class: "bpfs." + f[2] + "." + form, What: "through BasePathFS(/qb): " + bad + " at " + l + " -> " + rw,
+					res.Mismatches = append(res.Mismatches, lib.Mismatch{Kind: "violation", Class: "bpfs." + f[2] + "." + form, What: "through BasePathFS(MemFS, " + spelling + "): " + bad + " at " + l + " -> " + rw,
 						History: append(lib.History{}, hist...), Impl: []string{rw}, Expected: []string{rt}})
 				}
 				break
@@ -172,10 +192,12 @@ func corrBpfs(seed uint64, tier string, replay []string) *lib.Result {
 				break
 			}
 		}
-		if replay != nil {
-			break
+		if replay != nil && (k+1 >= len(baseSpellings) || len(res.Mismatches) > 0) {
+			break // a replay is run under every spelling of the base path
 		}
 	}
 	st.Fill(res)
 	return res
 }
+
+var baseSpellings = []string{"/qb", "/qb/", "//qb", "/qb/.", "/other/../qb", "/qb//"}
